@@ -90,6 +90,7 @@ func init() {
 }
 
 func init() {
+	intrinsics["vfFixClock"] = func(p *Path, fr *frame, a []Value) Value { p.ghost["fixedClock"] = true; return nil }
 	intrinsics["vfHoldTimers"] = func(p *Path, fr *frame, a []Value) Value { p.ghost["holdTimers"] = true; return nil }
 	intrinsics["vfReleaseTimers"] = func(p *Path, fr *frame, a []Value) Value { delete(p.ghost, "holdTimers"); return nil }
 }
@@ -115,6 +116,10 @@ func (p *Path) timerStruct(tname string, ch *Chan) Ptr {
 // timeNow returns a time.Time carrying a symbolic, non-decreasing monotonic reading.
 func (p *Path) timeNow() Value {
 	ts := p.e.ts
+	if _, fixed := p.ghost["fixedClock"]; fixed {
+		// the harness declared elapsed time irrelevant: the clock stands still
+		return p.mkTime(ts.BV(64, 1000000000))
+	}
 	t := p.newInput("time.Now", BVSort(64))
 	// 0 <= prev <= t < 2^62
 	lo := ts.BV(64, 0)
